@@ -13,7 +13,7 @@ open Vgi Vgi.Sticky
 def tick : Int := 10000000000
 
 inductive POp
-  | openS (ttl : Int) (sid : Sid)
+  | openS (ttl : Int) (sid : Sid) (mode : Nat)   -- mode: 0 plain, 1 Close panics, 2 Close blocks until `goclose`
   | closeS | sess | block | panic
   deriving Repr
 
@@ -25,6 +25,8 @@ structure DThread where
   panicked : Bool := false
   lost : Bool := false
   reported : Bool := false
+  isSys : Bool := false          -- a reaper sweep / shutdown (not a request)
+  took : List Nat := []          -- entries the sweep removed
   deriving Repr
 
 structure DState where
@@ -34,11 +36,13 @@ structure DState where
   thrs : List DThread := []
   aged : Int := 0
   lines : Int := 0
+  blocking : List Nat := []      -- entries whose state's Close blocks until released
+  nSys : Nat := 0
 
 def DState.cfg (d : DState) : Cfg :=
   { n := d.nW, worker := fun i => d.wk.getD i ⟨[], [], 0⟩ }
 
-def DState.now (d : DState) : Int := d.aged * tick + d.lines
+def DState.now (d : DState) : Int := d.aged * tick + d.lines * 1000   -- a script line takes far longer than the ±1 ns of `reapat`
 
 def hexStr? (s : String) : Option Bytes := bytesOfHexAux s.toList
 
@@ -110,9 +114,15 @@ def parseOp (s : String) : Option POp :=
   else if s = "p" then some .panic
   else if s.startsWith "o" then
     match (s.drop 1).toString.splitOn "/" with
-    | [ttl, sid] => do
-      let sid ← hexStr? sid
-      if sid.length = 12 then some (.openS (← ttl.toInt?) sid) else none
+    | [ttl, sidm] => do
+      let (sidS, mode) := match sidm.splitOn ":" with
+        | [a, "p"] => (a, 1)
+        | [a, "b"] => (a, 2)
+        | [a] => (a, 0)
+        | _ => ("", 9)
+      if mode = 9 then none else
+      let sid ← hexStr? sidS
+      if sid.length = 12 then some (.openS (← ttl.toInt?) sid mode) else none
     | _ => none
   else none
 
@@ -147,7 +157,9 @@ def runThread : Nat → DState → Nat → DState
       match apply d a with
       | some d' => runThread fuel (updThr d' t f) t
       | none => d
-    if th.owed ≠ [] then go (.runClose t) id
+    if th.owed ≠ [] then
+      -- a state whose Close blocks keeps its closer inside Close until `goclose`
+      (if d.blocking.contains (th.owed.headD 0) then d else go (.runClose t) id)
     else match th.pc with
     | .start =>
       match apply d (.resolve t d.now) with
@@ -182,10 +194,12 @@ def runThread : Nat → DState → Nat → DState
             let r := resStr (d'.st.thr t).last
             runThread fuel (updThr d' t fun x => { x with prog := rest, obs := x.obs ++ ["c:" ++ r] }) t
           | none => d
-        | .openS ttl sid :: rest =>
+        | .openS ttl sid mode :: rest =>
           match apply d (.hOpen t sid (ttl * tick) d.now 0 0) with
           | some d' =>
             let r := resStr (d'.st.thr t).last
+            let born := d'.st.nextUid ≠ d.st.nextUid
+            let d' := if born ∧ mode = 2 then { d' with blocking := d.st.nextUid :: d'.blocking } else d'
             runThread fuel (updThr d' t fun x => { x with prog := rest, obs := x.obs ++ ["o:" ++ r] }) t
           | none =>
             -- repeated session id inside one registry: outside the model's assumption
@@ -208,10 +222,19 @@ def maskTimes (p : Bytes) : Bytes :=
   if p.length < 16 then p
   else List.replicate 8 0 ++ (p.drop 8).take (p.length - 16) ++ List.replicate 8 0
 
+def closing (d : DState) (t : Nat) : Bool :=
+  match (d.st.thr t).owed with
+  | u :: _ => d.blocking.contains u
+  | [] => false
+
 def statusOf (d : DState) (x : DThread) : String :=
   let th := d.st.thr x.id
   let obs := ",".intercalate x.obs
+  if x.isSys then
+    (if th.owed = [] then s!"y{x.id - 1000000}=done:{x.took.length}" else s!"y{x.id - 1000000}=closing")
+  else
   let pre := s!"t{x.id}="
+  if closing d x.id then pre ++ "closing" else
   match th.pc with
   | .lockWait => pre ++ "lock"
   | .handler => if x.blocked then pre ++ "blk:" ++ obs else pre ++ "run"
@@ -228,9 +251,10 @@ def statusOf (d : DState) (x : DThread) : String :=
 /-- Statuses of all threads not yet reported as done; marks the done ones reported. -/
 def report (d : DState) (head : String) : DState × String :=
   let live := d.thrs.filter (fun x => ¬ x.reported)
+  let live := live.filter (fun x => ¬ x.isSys) ++ live.filter (·.isSys)   -- requests first, then sweeps
   let out := " ".intercalate (head :: live.map (statusOf d))
   let d' := { d with thrs := d.thrs.map fun x =>
-    if (d.st.thr x.id).pc = .done then { x with reported := true } else x }
+    if (d.st.thr x.id).pc = .done ∨ (x.isSys ∧ (d.st.thr x.id).owed = []) then { x with reported := true } else x }
   (d', out)
 
 def sysThread : Nat := 1000000
@@ -244,17 +268,24 @@ def sortStrs (l : List String) : List String := l.foldr insertSorted []
 def snapStr (d : DState) : String :=
   let ents := sortStrs (d.st.entries.map fun e =>
     s!"{e.worker}/{hexOfBytes e.sid}/{hexOfBytes e.pkey}/{if (d.st.lock e.uid).isSome then 1 else 0}")
+  -- counts of sessions that an unfinished sweep took, or whose Close is in progress, are not comparable
+  let pendingSweep := (d.thrs.filter fun x => x.isSys ∧ (d.st.thr x.id).owed ≠ []).flatMap (·.took)
+  let inClose := d.thrs.filterMap fun x => if closing d x.id then (d.st.thr x.id).owed.head? else none
   let cls := sortStrs (d.st.births.map fun b =>
-    s!"{b.entry.worker}/{hexOfBytes b.entry.sid}={d.st.closeCount b.entry.uid}")
+    let u := b.entry.uid
+    let v := if pendingSweep.contains u ∨ inClose.contains u then "?" else toString (d.st.closeCount u)
+    s!"{b.entry.worker}/{hexOfBytes b.entry.sid}={v}")
   let dr := String.join ((List.range d.nW).map fun w => if d.st.draining w then "1" else "0")
   "E[" ++ " ".intercalate ents ++ "] C[" ++ " ".intercalate cls ++ "] D[" ++ dr ++ "]"
 
-def runSys (d : DState) (a : Act) : DState × Nat :=
-  match apply d a with
+def runSys (d : DState) (mk : Nat → Act) : DState :=
+  let t := sysThread + d.nSys
+  match apply d (mk t) with
   | some d' =>
-    let n := (d'.st.thr sysThread).owed.length
-    (runThread fuel0 d' sysThread, n)
-  | none => (d, 0)
+    let took := (d'.st.thr t).owed
+    let d2 := { d' with nSys := d'.nSys + 1, thrs := d'.thrs ++ [{ id := t, prog := [], isSys := true, took := took }] }
+    runThread fuel0 d2 t
+  | none => d
 
 def step (d0 : DState) (ws : List String) : DState × String :=
   let d := { d0 with lines := d0.lines + 1 }
@@ -304,23 +335,20 @@ def step (d0 : DState) (ws : List String) : DState × String :=
   | ["reap", w] =>
     match w.toNat? with
     | some w =>
-      let (d1, n) := runSys d (.reap sysThread w d.now)
-      report (settle fuel0 d1) s!"n={n}"
+      report (settle fuel0 (runSys d fun t => .reap t w d.now)) "ok"
     | none => (d0, "bad-op")
   | ["reapat", w, sid, delta] =>
     match w.toNat?, hexStr? sid, delta.toInt? with
     | some w, some sid, some delta =>
       match findEntry d.st.entries w sid with
       | some e =>
-        let (d1, n) := runSys d (.reap sysThread w (e.expires + delta))
-        report (settle fuel0 d1) s!"n={n}"
-      | none => report d "n=none"
+        report (settle fuel0 (runSys d fun t => .reap t w (e.expires + delta))) "ok"
+      | none => report d "none"
     | _, _, _ => (d0, "bad-op")
   | ["shutdown", w] =>
     match w.toNat? with
     | some w =>
-      let (d1, n) := runSys d (.shutdown sysThread w)
-      report (settle fuel0 d1) s!"n={n}"
+      report (settle fuel0 (runSys d fun t => .shutdown t w)) "ok"
     | none => (d0, "bad-op")
   | ["drain", w, v] =>
     match w.toNat? with
@@ -330,6 +358,18 @@ def step (d0 : DState) (ws : List String) : DState × String :=
       | some d1 => report d1 "ok"
       | none => report d "noop"
     | none => (d0, "bad-op")
+  | ["goclose", w, sid] =>
+    match w.toNat?, hexStr? sid with
+    | some w, some sid =>
+      match d.st.births.find? (fun b => b.entry.worker = w ∧ b.entry.sid = sid) with
+      | some b =>
+        let u := b.entry.uid
+        let waiting := d.thrs.filter fun x => (d.st.thr x.id).owed.head? = some u ∧ d.blocking.contains u
+        let d1 := { d with blocking := d.blocking.filter (· ≠ u) }
+        let d2 := waiting.foldl (fun acc x => runThread fuel0 acc x.id) d1
+        report (settle fuel0 d2) (if waiting.isEmpty then "noop" else "ok")
+      | none => report d "noop"
+    | _, _ => (d0, "bad-op")
   | ["snap"] => report d (snapStr d)
   | ["aad", id] =>
     match parseIdent id with
